@@ -980,7 +980,14 @@ def run(ctx: Ctx):
     if h5.get("h5py"):
         ctx.log("note: h5py is importable here but the HDF5 route is not implemented in this check")
 
-    cases = structured_cases(ctx, r) + random_cases(ctx, r, ctx.budget(100, 300)) + pipeline_cases(ctx, r, ctx.budget(3, 8))
+    corpus = []
+    for f in sorted((core.VERIF / "harness" / "corpus" / "C18").glob("*.json")):
+        try:
+            corpus.append(json.loads(f.read_text()))
+        except Exception as ex:  # noqa: BLE001
+            ctx.broken.append(Broken("correspondence", f"corpus file {f.name} unreadable", repr(ex)))
+    ctx.cov["corpus_cases"] = len(corpus)
+    cases = corpus + structured_cases(ctx, r) + random_cases(ctx, r, ctx.budget(100, 300)) + pipeline_cases(ctx, r, ctx.budget(3, 8))
     if not ctx.quick:
         cases += exhaustive_cases(ctx, ctx.rng("exh"))
         ctx.cov["exhaustive"] = ("all subsets of initialised containers (photon none/2-D/3-D): 4 types via .asdf files, "
